@@ -19,6 +19,32 @@ PROP = "C16"
 PREFIX = "C16."
 
 
+def hcfg():
+    from .common import cfg_basic
+
+    return cfg_basic("C16", 3, others=("other",), other_msgs=1, name="c16-h")
+
+
+def halphabet(tier):
+    """Histories after which the data items must still agree: sizes are asked for, messages go and come
+    (MH hands a freed number to the next arrival), folders are packed."""
+    A = "A"
+    return [
+        {"s": A, "op": "select", "m": "INBOX"},
+        {"s": A, "op": "fetch", "set": "*", "items": "(RFC822.SIZE)"},
+        {"s": A, "op": "fetch", "set": "1:*", "items": "(UID RFC822.SIZE)", "uid": True},
+        {"s": A, "op": "search", "key": "ALL"},
+        {"s": A, "op": "del", "set": "*"},
+        {"s": A, "op": "del", "set": "1"},
+        {"s": A, "op": "move", "set": "*", "dst": "other"},
+        {"s": A, "op": "copy", "set": "1", "dst": "INBOX"},
+        {"s": A, "op": "append", "m": "INBOX"},
+        {"s": A, "op": "append", "m": "INBOX", "cid": "longcid0000000000000000000000000000000000000001"},
+        {"s": "env", "op": "deliver", "m": "INBOX"},
+        {"s": "env", "op": "poll", "dt": 21.0},
+    ]
+
+
 def run(tier, seed, jobs, prefix=PREFIX, prop=PROP) -> Result:
     k = 2 if tier == "quick" else 3
     shapes = list(msggen.shapes(k))
@@ -45,7 +71,21 @@ def run(tier, seed, jobs, prefix=PREFIX, prop=PROP) -> Result:
         "shapes": len(shapes), "fixtures": len(fx), "exhaustive": True,
         "samples": [list(shapes[1]), list(shapes[len(shapes) // 2]), list(shapes[-1])],
     }
-    res.assumptions = ["messages come from a fixed feature menu (vf/msggen.py); not arbitrary byte strings",
+    if prop == "C16":
+        # H part: the equations on every state a short history reaches (start from non-initial states)
+        from .hcommon import run_h
+
+        hres = run_h("C16", ("C16.",), [{"cfg_ref": ("vf.props.c16", "hcfg", []), "alphabet": halphabet(tier),
+                                         "depth": 4 if tier == "quick" else 5, "label": "INBOX(3), sizes asked / messages come and go"}],
+                     ("C16",), jobs, seed, [], time_budget=60 if tier == "quick" else 1200)
+        res.failures.extend(hres.failures)
+        res.coverage["evaluations"] += hres.coverage["transitions"]
+        res.coverage["distinct_nontrivial"] += hres.coverage["states"]
+        res.coverage["exhaustive"] = res.coverage["exhaustive"] and hres.coverage["exhaustive"]
+        res.coverage["h_part"] = {k: hres.coverage[k] for k in ("states", "transitions", "bound", "caps_hit", "other_rules_seen") if k in hres.coverage}
+    res.assumptions = ["H part (C16 only): single session, INBOX(3) with messages of different sizes, pack limit as configured by the template; "
+                       "after every history of <=4 (thorough 5) events: RFC822.SIZE = |BODY[]| = |HEADER|+|TEXT|, BODY[] is the model's message, SEARCH LARGER agrees",
+                       "messages come from a fixed feature menu (vf/msggen.py); not arbitrary byte strings",
                        "header text is compared after RFC 2047 decoding and whitespace folding; bodies modulo line-ending convention, a final newline and "
                        "MIME padding lines before a boundary",
                        "partials are probed at origins {0,1,len-1,len,len+1} with counts {1,2,len}"]
@@ -54,6 +94,10 @@ def run(tier, seed, jobs, prefix=PREFIX, prop=PROP) -> Result:
 
 def replay(rec, prefix=PREFIX):
     rp = rec["replay"]
+    if rp["driver"] == "h":
+        from .hcommon import replay_h
+
+        return replay_h("C16.", rec)
     if rp["driver"] == "msg":
         f, _ = msgcheck.work_shapes([tuple(rp["feats"])])
     elif rp["driver"] == "fixture":
